@@ -1,85 +1,32 @@
-(* C05 - proofs of the order-theoretic clauses for every instantiation dictionary of Ops.v (generated code read through IO o). *)
+(* C05 - order clauses, part 1: contains / empty / extend / intersection_spec (generated code read through IO o). *)
 From Coq Require Import ZArith List Bool Lia Setoid Morphisms.
 From Common Require Import CxxSem.
 From C05.gen Require Import GenBox.
-From C05 Require Import Interp Ops Spec.
+From C05 Require Import Interp Ops Spec OrdBase.
 Import ListNotations.
 
-Lemma Forall2_cons_iff {A B} (R : A -> B -> Prop) x y l l' :
-  Forall2 R (x :: l) (y :: l') <-> R x y /\ Forall2 R l l'.
-Proof. split; intro H. - inversion H; subst; auto. - destruct H; constructor; auto. Qed.
-Lemma Forall2_nil_iff {A B} (R : A -> B -> Prop) : Forall2 R [] [] <-> True.
-Proof. split; auto. Qed.
-Lemma Forall_cons_iff' {A} (P : A -> Prop) x l : Forall P (x :: l) <-> P x /\ Forall P l.
-Proof. split; intro H. - inversion H; subst; auto. - destruct H; constructor; auto. Qed.
-Lemma Forall_nil_iff' {A} (P : A -> Prop) : Forall P [] <-> True.
-Proof. split; auto. Qed.
 
 Section Ord.
 Variable o : ordsig.
 Hypothesis L : ord_laws o.
-Notation lt' := (ltb o).
-
-Lemma le_refl a : le o a a.
-Proof. apply (lt_irrefl o L). Qed.
-Lemma lt_asym a b : lt' a b = true -> lt' b a = false.
-Proof.
-  intro H. destruct (lt' b a) eqn:E; auto.
-  pose proof (lt_trans o L _ _ _ H E) as F. rewrite (lt_irrefl o L) in F. discriminate.
-Qed.
-Lemma le_trans a b c : le o a b -> le o b c -> le o a c.
-Proof.
-  unfold le. intros H1 H2. destruct (lt' c a) eqn:E; auto.
-  destruct (lt' a b) eqn:F.
-  - pose proof (lt_trans o L _ _ _ E F) as G. congruence.
-  - assert (a = b) by (apply (lt_total o L); auto). subst. congruence.
-Qed.
-Lemma le_antisym a b : le o a b -> le o b a -> a = b.
-Proof. unfold le. intros. apply (lt_total o L); auto. Qed.
-Lemma le_total a b : le o a b \/ le o b a.
-Proof. unfold le. destruct (lt' b a) eqn:E; auto. right. apply lt_asym; auto. Qed.
-Lemma lt_le a b : lt' a b = true -> le o a b.
-Proof. apply lt_asym. Qed.
-Lemma nlt_le a b : lt' a b = false <-> le o b a.
-Proof. reflexivity. Qed.
-Lemma lt_nle a b : lt' a b = true <-> ~ le o b a.
-Proof.
-  unfold le. destruct (lt' a b); split; intro H.
-  - discriminate.
-  - reflexivity.
-  - discriminate.
-  - exfalso; apply H; reflexivity.
-Qed.
-
-Lemma omin_cases a b : (omin o a b = a /\ le o a b) \/ (omin o a b = b /\ le o b a).
-Proof. unfold omin. destruct (lt' b a) eqn:E; [right | left]; split; auto. apply lt_le; auto. Qed.
-Lemma omax_cases a b : (omax o a b = a /\ le o b a) \/ (omax o a b = b /\ le o a b).
-Proof. unfold omax. destruct (lt' a b) eqn:E; [right | left]; split; auto. apply lt_le; auto. Qed.
-
-Lemma le_omin p a b : le o p (omin o a b) <-> le o p a /\ le o p b.
-Proof.
-  destruct (omin_cases a b) as [[-> H] | [-> H]]; split; intros; try tauto.
-  - split; auto. eapply le_trans; eauto.
-  - split; auto. eapply le_trans; eauto.
-Qed.
-Lemma omax_le a b p : le o (omax o a b) p <-> le o a p /\ le o b p.
-Proof.
-  destruct (omax_cases a b) as [[-> H] | [-> H]]; split; intros; try tauto.
-  - split; auto. eapply le_trans; eauto.
-  - split; auto. eapply le_trans; eauto.
-Qed.
-Lemma omin_le_l a b : le o (omin o a b) a.
-Proof. destruct (omin_cases a b) as [[-> H] | [-> H]]; auto using le_refl. Qed.
-Lemma omin_le_r a b : le o (omin o a b) b.
-Proof. destruct (omin_cases a b) as [[-> H] | [-> H]]; auto using le_refl. Qed.
-Lemma le_omax_l a b : le o a (omax o a b).
-Proof. destruct (omax_cases a b) as [[-> H] | [-> H]]; auto using le_refl. Qed.
-Lemma le_omax_r a b : le o b (omax o a b).
-Proof. destruct (omax_cases a b) as [[-> H] | [-> H]]; auto using le_refl. Qed.
-Lemma omin_top x : le o x (top o) -> omin o (top o) x = x.
-Proof. intro H. destruct (omin_cases (top o) x) as [[E H'] | [E _]]; rewrite E; auto. apply le_antisym; auto. Qed.
-Lemma omax_bot x : le o (bot o) x -> omax o (bot o) x = x.
-Proof. intro H. destruct (omax_cases (bot o) x) as [[E H'] | [E _]]; rewrite E; auto. apply le_antisym; auto. Qed.
+Local Notation le_refl := (OrdBase.le_refl o L).
+Local Notation lt_asym := (OrdBase.lt_asym o L).
+Local Notation le_trans := (OrdBase.le_trans o L).
+Local Notation le_antisym := (OrdBase.le_antisym o L).
+Local Notation le_total := (OrdBase.le_total o L).
+Local Notation lt_le := (OrdBase.lt_le o L).
+Local Notation nlt_le := (OrdBase.nlt_le o).
+Local Notation lt_nle := (OrdBase.lt_nle o).
+Local Notation omin_cases := (OrdBase.omin_cases o L).
+Local Notation omax_cases := (OrdBase.omax_cases o L).
+Local Notation le_omin := (OrdBase.le_omin o L).
+Local Notation omax_le := (OrdBase.omax_le o L).
+Local Notation omin_le_l := (OrdBase.omin_le_l o L).
+Local Notation omin_le_r := (OrdBase.omin_le_r o L).
+Local Notation le_omax_l := (OrdBase.le_omax_l o L).
+Local Notation le_omax_r := (OrdBase.le_omax_r o L).
+Local Notation omin_top := (OrdBase.omin_top o L).
+Local Notation omax_bot := (OrdBase.omax_bot o L).
 
 (* ------------------------------------------------------------------ tactics *)
 Ltac dv := repeat match goal with
@@ -100,6 +47,13 @@ Ltac f2 := rewrite ?Forall2_cons_iff, ?Forall2_nil_iff, ?Forall_cons_iff', ?Fora
 Ltac f2_in H := rewrite ?Forall2_cons_iff, ?Forall2_nil_iff, ?Forall_cons_iff', ?Forall_nil_iff' in H.
 Ltac b2p := rewrite ?andb_true_iff, ?orb_true_iff, ?negb_true_iff, ?orb_false_iff, ?andb_false_iff, ?negb_false_iff.
 
+Ltac dbox c := let cl := fresh "cl" in let cu := fresh "cu" in destruct c as [cl cu]; try destruct cl; try destruct cu; cbn.
+Ltac hyps := repeat match goal with H : _ /\ _ |- _ => destruct H end.
+Ltac fin := f2; rewrite ?le_omin, ?omax_le; repeat split; intros; hyps;
+  auto using omin_le_l, omin_le_r, le_omax_l, le_omax_r, le_refl.
+Ltac trans_fin := f2; repeat split; intros; hyps; f2; repeat split;
+  solve [assumption | apply le_refl | eapply le_trans; eassumption].
+
 Theorem contains_iff : forall r, In r (range_insts (IO o)) -> forall b p,
   r_contains r b p = true <-> pt_in o r b p.
 Proof.
@@ -112,13 +66,6 @@ Proof.
   intros r H. insts H; intros b; cbn in b; dv; red_all; f2; b2p; unfold le;
     repeat match goal with |- context [ltb o ?a ?b] => destruct (ltb o a b) end; intuition congruence.
 Qed.
-
-Ltac dbox c := let cl := fresh "cl" in let cu := fresh "cu" in destruct c as [cl cu]; try destruct cl; try destruct cu; cbn.
-Ltac hyps := repeat match goal with H : _ /\ _ |- _ => destruct H end.
-Ltac fin := f2; rewrite ?le_omin, ?omax_le; repeat split; intros; hyps;
-  auto using omin_le_l, omin_le_r, le_omax_l, le_omax_r, le_refl.
-Ltac trans_fin := f2; repeat split; intros; hyps; f2; repeat split;
-  solve [assumption | apply le_refl | eapply le_trans; eassumption].
 
 (* extend(point): bounds form (all boxes) *)
 Theorem extend_point_least : forall r, In r (range_insts (IO o)) -> forall b p,
@@ -175,39 +122,6 @@ Proof.
   intros c Hs1 Hs2. apply encloses_subset; auto. apply E3; apply subset_encloses; auto.
 Qed.
 
-(* the default-constructed empty box is the identity of extend (coordinates within [neg_inf, pos_inf]) *)
-Ltac idfin := f2; intros; repeat (rewrite omin_top by tauto); repeat (rewrite omax_bot by tauto); reflexivity.
-
-Theorem extend_empty_id_int : forall r, In r (int_insts (IO o)) -> forall b, box_in_range o r b ->
-  r_extendb r (r_default r) b = b /\ r_extendb r (r_emptyty r) b = b /\ canonical_empty o r (r_default r).
-Proof.
-  intros r H. insts H; intros b; cbn in b; dv; red_all; intros [H1 H2]; revert H1 H2; unfold in_range; f2; intros; hyps;
-    repeat (rewrite omin_top by assumption); repeat (rewrite omax_bot by assumption); auto.
-Qed.
-
-Theorem extend_empty_id_float : neg_top o -> forall r, In r (float_insts (IO o)) -> forall b, box_in_range o r b ->
-  r_extendb r (r_default r) b = b /\ r_extendb r (r_emptyty r) b = b /\ canonical_empty o r (r_default r).
-Proof.
-  intros N r H. unfold neg_top in N.
-  insts H; intros b; cbn in b; dv; red_all; rewrite ?N; intros [H1 H2]; revert H1 H2; unfold in_range; f2; intros; hyps;
-    repeat (rewrite omin_top by assumption); repeat (rewrite omax_bot by assumption); auto.
-Qed.
-
-Theorem extend_empty_point_int : forall r, In r (int_insts (IO o)) -> forall p, Forall (in_range o) (comps r p) ->
-  r_extendp r (r_default r) p = mkbox r p p.
-Proof.
-  intros r H. insts H; intros p; cbn in p; dv; red_all; unfold in_range; f2; intros; hyps;
-    repeat (rewrite omin_top by assumption); repeat (rewrite omax_bot by assumption); auto.
-Qed.
-
-Theorem extend_empty_point_float : neg_top o -> forall r, In r (float_insts (IO o)) -> forall p, Forall (in_range o) (comps r p) ->
-  r_extendp r (r_default r) p = mkbox r p p.
-Proof.
-  intros N r H. unfold neg_top in N.
-  insts H; intros p; cbn in p; dv; red_all; rewrite ?N; unfold in_range; f2; intros; hyps;
-    repeat (rewrite omin_top by assumption); repeat (rewrite omax_bot by assumption); auto.
-Qed.
-
 (* intersectionOf contains exactly the common points - all boxes, empty and inverted ones included *)
 Lemma box_range r : In r (box_insts (IO o)) -> In (b_r r) (range_insts (IO o)).
 Proof. intro H. insts H; cbn; repeat first [left; reflexivity | right]. Qed.
@@ -219,82 +133,4 @@ Proof.
   insts H; intros a b p; cbn in a, b, p; dv; red_all; fin.
 Qed.
 
-Theorem disjoint_iff_not_touching : forall r, In r (touch_insts (IO o)) -> forall a b,
-  t_touching r a b = negb (b_disjoint r a b).
-Proof.
-  intros r H. insts H; intros a b; cbn in a, b; dv; red_all;
-    repeat match goal with |- context [ltb o ?a ?b] => destruct (ltb o a b) end; reflexivity.
-Qed.
-
-(* per component: for non-empty ranges, the intersection is inverted iff one range lies strictly before the other *)
-Lemma inter1_empty_iff al au bl bu : le o al au -> le o bl bu ->
-  (ltb o (omin o au bu) (omax o al bl) = true <-> ltb o au bl = true \/ ltb o bu al = true).
-Proof.
-  intros Ha Hb. rewrite !lt_nle. rewrite omax_le, !le_omin.
-  unfold le in *.
-  destruct (ltb o au bl) eqn:E1, (ltb o bu al) eqn:E2, (ltb o au al) eqn:E3, (ltb o bu bl) eqn:E4; try discriminate; intuition congruence.
-Qed.
-
-Theorem intersection_empty_iff_disjoint : forall r, In r (box_insts (IO o)) -> forall a b,
-  nonempty o r a -> nonempty o r b ->
-  (r_isempty r (b_inter r a b) = true <-> b_disjoint r a b = true).
-Proof.
-  intros r H. insts H; intros a b; cbn in a, b; dv; red_all; f2; intros Ha Hb; b2p;
-    rewrite !inter1_empty_iff by tauto; tauto.
-Qed.
-
-(* the canonical empty box: disjoint from every box that has at least one finite face, and its intersections are empty *)
-Theorem canonical_empty_disjoint : ltb o (bot o) (top o) = true -> forall r, In r (box_insts (IO o)) -> forall a b,
-  canonical_empty o r a -> box_in_range o r b ->
-  r_isempty r (b_inter r a b) = true /\
-  (b_disjoint r a b = true <-> Exists (fun x => ltb o (bot o) x = true) (lows o r b) \/ Exists (fun x => ltb o x (top o) = true) (highs o r b)).
-Proof.
-  intros BT r H. insts H; intros a b; cbn in a, b; dv; red_all; intros [E1 E2]; inversion E1; inversion E2; subst; clear E1 E2;
-    intros [H1 H2]; revert H1 H2; unfold in_range; f2; intros H1 H2;
-    rewrite ?Exists_cons, ?Exists_nil; b2p;
-    repeat match goal with |- context [omax o (top o) ?x] => replace (omax o (top o) x) with (top o) by
-       (destruct (omax_cases (top o) x) as [[-> _] | [-> ?]]; [reflexivity | apply le_antisym; tauto]) end;
-    repeat match goal with |- context [omin o (bot o) ?x] => replace (omin o (bot o) x) with (bot o) by
-       (destruct (omin_cases (bot o) x) as [[-> _] | [-> ?]]; [reflexivity | apply le_antisym; tauto]) end;
-    rewrite ?BT; tauto.
-Qed.
-
-(* clamp *)
-Theorem clamp_in : forall r, In r (range_insts (IO o)) -> forall b p, nonempty o r b -> pt_in o r b (r_clamp r b p).
-Proof.
-  intros r H. insts H; intros b p; cbn in b, p; dv; red_all; f2; intros Hne; rewrite ?le_omin;
-    intuition (eauto using le_omax_l, le_refl);
-    match goal with |- le o (omax o ?l (omin o ?p ?u)) ?u => apply omax_le; split; [assumption | apply omin_le_r] end.
-Qed.
-
-Lemma clamp1_id l u p : le o l p -> le o p u -> omax o l (omin o p u) = p.
-Proof.
-  intros H1 H2.
-  assert (E : omin o p u = p) by (destruct (omin_cases p u) as [[-> _] | [-> ?]]; auto using le_antisym).
-  rewrite E. destruct (omax_cases l p) as [[-> ?] | [-> _]]; auto using le_antisym.
-Qed.
-
-Theorem clamp_id : forall r, In r (range_insts (IO o)) -> forall b p, pt_in o r b p -> r_clamp r b p = p.
-Proof.
-  intros r H. insts H; intros b p; cbn in b, p; dv; red_all; f2; intros; rewrite !clamp1_id by tauto; reflexivity.
-Qed.
-
-Lemma clamp1_between l u p q : le o l u -> le o l q -> le o q u -> between o p (omax o l (omin o p u)) q.
-Proof.
-  intros Hlu Hlq Hqu. unfold between.
-  destruct (omin_cases p u) as [[-> Hpu] | [-> Hup]].
-  - destruct (omax_cases l p) as [[-> Hpl] | [-> Hlp]].
-    + left; split; auto.
-    + destruct (le_total p q); [left | right]; split; auto using le_refl.
-  - right. destruct (omax_cases l u) as [[-> Hul] | [-> _]].
-    + split; [apply (le_trans q u l) | apply (le_trans l u p)]; assumption.
-    + split; auto.
-Qed.
-
-(* nearest point, order form: clamp(p)_i lies between p_i and q_i for every q of the box *)
-Theorem clamp_between : forall r, In r (range_insts (IO o)) -> forall b p q, nonempty o r b -> pt_in o r b q ->
-  Forall3 (between o) (comps r p) (comps r (r_clamp r b p)) (comps r q).
-Proof.
-  intros r H. insts H; intros b p q; cbn in b, p, q; dv; red_all; f2; intros; repeat split; try apply clamp1_between; tauto.
-Qed.
 End Ord.
